@@ -233,7 +233,7 @@ def verify_parse_v2(run, tier, wf=True, prefix=None, only=None):
             pos0 = reader.pos
             reads0 = reader.reads
             try:
-                it.exec_loop_body(stmt.body, fr)
+                it.exec_while_step(stmt, fr)
                 exited = False
             except BreakSig:
                 exited = True
